@@ -721,6 +721,38 @@ func trafficCase(c *core.Case, pl *trafficPlan) {
 	backComplete := true
 	if !fl.waitCount(otOK, 60*time.Second) {
 		backComplete = false
+		// Slow or stuck? The wire decides, not the clock alone: if for a further 30 observations, one second apart, not a
+		// byte is written to or read from either direction, nothing is left unread on the wire and neither side has
+		// reported an error, then the accepted messages sit inside the sender with nothing under way that could move them
+		// (the flush throttle is 100 us, the rates are unlimited or 50 MB/s, the next ping is 10 minutes away).
+		type wire struct{ aw, ar, bw, br int64 }
+		look := func() (wire, int) {
+			p.d.ab.mu.Lock()
+			w := wire{aw: p.d.ab.written, ar: int64(p.d.ab.reads)}
+			pend := len(p.d.ab.buf)
+			p.d.ab.mu.Unlock()
+			p.d.ba.mu.Lock()
+			w.bw, w.br = p.d.ba.written, int64(p.d.ba.reads)
+			pend += len(p.d.ba.buf)
+			p.d.ba.mu.Unlock()
+			return w, pend
+		}
+		w0, pend := look()
+		idle := pend == 0
+		for i := 0; i < 30 && idle; i++ {
+			time.Sleep(time.Second)
+			w1, p1 := look()
+			if w1 != w0 || p1 != 0 {
+				idle = false
+			}
+		}
+		flR, flE, _ := fl.snapshot()
+		_, otE, _ := other.snapshot()
+		if idle && len(flE) == 0 && len(otE) == 0 && len(flR) < otOK {
+			c.Violation("mconn:accepted-messages-stuck-in-the-sender", fmt.Sprintf("%d messages were accepted by Send on side %s, %d were delivered; 60 s later and for 30 further seconds not a byte moved on the wire in either direction, the wire is empty and neither side reported an error: the rest sits in the sender with nothing under way to flush it", otOK, other.side, len(flR)),
+				map[string]interface{}{"plan": pl, "accepted": otOK, "delivered": len(flR)})
+			return
+		}
 		run.Inconclusive(fmt.Sprintf("watchdog: %s:%d: %d messages accepted on side %s, not all delivered within the watchdog", c.Group, c.I, otOK, other.side))
 	}
 	// flush and stop: everything accepted by the flusher is on the wire before its connection closes;
